@@ -1,0 +1,218 @@
+// Verification hooks (cargo feature `verif_hooks`): an optional interceptor that
+// observes, fails, parks or stops every storage operation of a Transport.
+//
+// Nothing in this file is compiled unless the feature is enabled.
+
+use std::sync::Arc;
+
+use bytes::Bytes;
+
+use super::{DirEntry, Error, ErrorKind, Metadata, Result, Transport, WriteMode};
+
+/// The seven storage operations.
+#[derive(Debug, Clone, Copy, PartialEq, Eq, Hash, PartialOrd, Ord)]
+pub enum Verb {
+    Read,
+    Write,
+    ListDir,
+    CreateDir,
+    Metadata,
+    RemoveFile,
+    RemoveDirAll,
+}
+
+/// One storage operation about to be attempted.
+#[derive(Debug, Clone)]
+pub struct OpInfo {
+    pub verb: Verb,
+    /// Path relative to the root the interceptor was installed at.
+    pub path: String,
+    /// Content for writes.
+    pub payload: Option<Vec<u8>>,
+    pub write_mode: Option<WriteMode>,
+}
+
+/// What the interceptor wants done with an operation.
+#[derive(Debug, Clone, Copy, PartialEq, Eq)]
+pub enum Decision {
+    /// Perform the operation against the real storage.
+    Proceed,
+    /// Do not touch storage; return this error.
+    Fail(ErrorKind),
+    /// For writes: create the file with zero length, then return this error
+    /// (the state a killed local write can leave behind).
+    CreateEmptyThenFail(ErrorKind),
+}
+
+/// What happened.
+#[derive(Debug, Clone)]
+pub enum Outcome {
+    Ok,
+    Bytes(usize),
+    Listing(Vec<DirEntry>),
+    Meta { len: u64, is_file: bool },
+    Err(ErrorKind),
+}
+
+pub trait Interceptor: Send + Sync {
+    /// Called before the operation; may block the calling thread.
+    fn before(&self, op: &OpInfo) -> Decision;
+    /// Called after the operation (also for operations that were failed by `before`).
+    fn after(&self, op: &OpInfo, outcome: &Outcome);
+    /// May reorder a listing before it is returned to the caller.
+    fn permute_listing(&self, _op: &OpInfo, _entries: &mut Vec<DirEntry>) {}
+}
+
+fn injected(kind: ErrorKind) -> Error {
+    Error {
+        kind,
+        source: None,
+        url: None,
+    }
+}
+
+impl Transport {
+    /// Return a transport on the same storage whose operations (and those of
+    /// every transport derived from it by `chdir`) go through `interceptor`.
+    pub fn with_interceptor(self, interceptor: Arc<dyn Interceptor>) -> Transport {
+        Transport {
+            interceptor: Some(interceptor),
+            ..self
+        }
+    }
+
+    fn hook_path(&self, relpath: &str) -> String {
+        let mut full_path = self.sub_path.clone();
+        if !relpath.is_empty() && relpath != "." {
+            if !full_path.is_empty() {
+                full_path += "/";
+            }
+            full_path += relpath;
+        }
+        full_path
+    }
+
+    fn hook_info(&self, verb: Verb, relpath: &str) -> OpInfo {
+        OpInfo {
+            verb,
+            path: self.hook_path(relpath),
+            payload: None,
+            write_mode: None,
+        }
+    }
+
+    pub(super) async fn hooked_read(&self, path: &str) -> Result<Bytes> {
+        let ic = self.interceptor.as_ref().expect("interceptor");
+        let info = self.hook_info(Verb::Read, path);
+        let r = match ic.before(&info) {
+            Decision::Proceed => self.protocol.read(path).await,
+            Decision::Fail(k) | Decision::CreateEmptyThenFail(k) => Err(injected(k)),
+        };
+        match &r {
+            Ok(b) => ic.after(&info, &Outcome::Bytes(b.len())),
+            Err(e) => ic.after(&info, &Outcome::Err(e.kind())),
+        }
+        r
+    }
+
+    pub(super) async fn hooked_list_dir(&self, relpath: &str) -> Result<Vec<DirEntry>> {
+        let ic = self.interceptor.as_ref().expect("interceptor");
+        let info = self.hook_info(Verb::ListDir, relpath);
+        let mut r = match ic.before(&info) {
+            Decision::Proceed => self.protocol.list_dir(relpath).await,
+            Decision::Fail(k) | Decision::CreateEmptyThenFail(k) => Err(injected(k)),
+        };
+        match &mut r {
+            Ok(entries) => {
+                ic.permute_listing(&info, entries);
+                ic.after(&info, &Outcome::Listing(entries.clone()))
+            }
+            Err(e) => ic.after(&info, &Outcome::Err(e.kind())),
+        }
+        r
+    }
+
+    pub(super) async fn hooked_write(
+        &self,
+        relpath: &str,
+        content: &[u8],
+        mode: WriteMode,
+    ) -> Result<()> {
+        let ic = self.interceptor.as_ref().expect("interceptor");
+        let mut info = self.hook_info(Verb::Write, relpath);
+        info.payload = Some(content.to_vec());
+        info.write_mode = Some(mode);
+        let r = match ic.before(&info) {
+            Decision::Proceed => self.protocol.write(relpath, content, mode).await,
+            Decision::Fail(k) => Err(injected(k)),
+            Decision::CreateEmptyThenFail(k) => {
+                match self.protocol.write(relpath, &[], mode).await {
+                    Ok(()) => Err(injected(k)),
+                    Err(e) => Err(e),
+                }
+            }
+        };
+        self.hook_after_unit(ic, &info, &r);
+        r
+    }
+
+    fn hook_after_unit(&self, ic: &Arc<dyn Interceptor>, info: &OpInfo, r: &Result<()>) {
+        match r {
+            Ok(()) => ic.after(info, &Outcome::Ok),
+            Err(e) => ic.after(info, &Outcome::Err(e.kind())),
+        }
+    }
+
+    pub(super) async fn hooked_create_dir(&self, relpath: &str) -> Result<()> {
+        let ic = self.interceptor.as_ref().expect("interceptor");
+        let info = self.hook_info(Verb::CreateDir, relpath);
+        let r = match ic.before(&info) {
+            Decision::Proceed => self.protocol.create_dir(relpath).await,
+            Decision::Fail(k) | Decision::CreateEmptyThenFail(k) => Err(injected(k)),
+        };
+        self.hook_after_unit(ic, &info, &r);
+        r
+    }
+
+    pub(super) async fn hooked_metadata(&self, relpath: &str) -> Result<Metadata> {
+        let ic = self.interceptor.as_ref().expect("interceptor");
+        let info = self.hook_info(Verb::Metadata, relpath);
+        let r = match ic.before(&info) {
+            Decision::Proceed => self.protocol.metadata(relpath).await,
+            Decision::Fail(k) | Decision::CreateEmptyThenFail(k) => Err(injected(k)),
+        };
+        match &r {
+            Ok(m) => ic.after(
+                &info,
+                &Outcome::Meta {
+                    len: m.len,
+                    is_file: m.kind == crate::Kind::File,
+                },
+            ),
+            Err(e) => ic.after(&info, &Outcome::Err(e.kind())),
+        }
+        r
+    }
+
+    pub(super) async fn hooked_remove_file(&self, relpath: &str) -> Result<()> {
+        let ic = self.interceptor.as_ref().expect("interceptor");
+        let info = self.hook_info(Verb::RemoveFile, relpath);
+        let r = match ic.before(&info) {
+            Decision::Proceed => self.protocol.remove_file(relpath).await,
+            Decision::Fail(k) | Decision::CreateEmptyThenFail(k) => Err(injected(k)),
+        };
+        self.hook_after_unit(ic, &info, &r);
+        r
+    }
+
+    pub(super) async fn hooked_remove_dir_all(&self, relpath: &str) -> Result<()> {
+        let ic = self.interceptor.as_ref().expect("interceptor");
+        let info = self.hook_info(Verb::RemoveDirAll, relpath);
+        let r = match ic.before(&info) {
+            Decision::Proceed => self.protocol.remove_dir_all(relpath).await,
+            Decision::Fail(k) | Decision::CreateEmptyThenFail(k) => Err(injected(k)),
+        };
+        self.hook_after_unit(ic, &info, &r);
+        r
+    }
+}
